@@ -2,6 +2,7 @@ package mboxprop
 
 import (
 	"bytes"
+	"context"
 	"fmt"
 	"testing"
 	"time"
@@ -268,8 +269,10 @@ func TestC17Codec(t *testing.T) {
 func TestC17Streams(t *testing.T) {
 	const unit = "TestC17Streams"
 	rec := stats.New(t, "C17", unit)
-	run := func(seed uint64) string {
+	refreshed := 0
+	run := func(seed uint64, refreshes int) string {
 		var v string
+		refreshed = 0
 		bo := vnet.InBubble(t, 60*time.Second, func() {
 			p, err := newMailboxPair(seed, 0)
 			if err != nil {
@@ -307,18 +310,63 @@ func TestC17Streams(t *testing.T) {
 				v = fmt.Sprintf("client read %q, %v", buf[:n], err)
 				return
 			}
-			_, events := p.R.Snapshot()
-			for _, e := range events {
-				switch {
-				case e.Op == "send" && e.Who == "client" && e.Stream != string(cl[:]):
-					v = "the client sent on a stream other than its send stream"
-				case e.Op == "send" && e.Who == "server" && e.Stream != string(sl[:]):
-					v = "the server sent on a stream other than its send stream"
-				case e.Op == "recv" && e.Who == "client" && e.Stream != string(cr[:]):
-					v = "the client received from a stream other than its receive stream"
-				case e.Op == "recv" && e.Who == "server" && e.Stream != string(sr[:]):
-					v = "the server received from a stream other than its receive stream"
+			checkEvents := func(when string) {
+				_, events := p.R.Snapshot()
+				for _, e := range events {
+					switch {
+					case e.Op == "send" && e.Who == "client" && e.Stream != string(cl[:]):
+						v = "the client sent on a stream other than its send stream " + when
+					case e.Op == "send" && e.Who == "server" && e.Stream != string(sl[:]):
+						v = "the server sent on a stream other than its send stream " + when
+					case e.Op == "recv" && e.Who == "client" && e.Stream != string(cr[:]):
+						v = "the client received from a stream other than its receive stream " + when
+					case e.Op == "recv" && e.Who == "server" && e.Stream != string(sr[:]):
+						v = "the server received from a stream other than its receive stream " + when
+					}
 				}
+			}
+			checkEvents("(first connection)")
+			// The same assignment must hold on every later connection of the
+			// session, which Client.Dial / Server.Accept build with
+			// RefreshClientConn / RefreshServerConn.
+			for round := 1; round <= refreshes && v == ""; round++ {
+				when := fmt.Sprintf("(connection %d of the session, after %d refresh(es))", round+1, round)
+				_ = p.C.Close()
+				_ = p.S.Close()
+				type res struct {
+					c   *mailbox.ClientConn
+					s   *mailbox.ServerConn
+					err error
+				}
+				rc, rs := make(chan res, 1), make(chan res, 1)
+				go func() { c2, err := mailbox.RefreshClientConn(context.Background(), p.C); rc <- res{c: c2, err: err} }()
+				go func() { s2, err := mailbox.RefreshServerConn(p.S); rs <- res{s: s2, err: err} }()
+				var c2 *mailbox.ClientConn
+				var s2 *mailbox.ServerConn
+				to := time.After(30 * time.Second)
+				for got := 0; got < 2; {
+					select {
+					case x := <-rc:
+						c2, got = x.c, got+1
+					case x := <-rs:
+						s2, got = x.s, got+1
+					case <-to:
+						got = 2
+					}
+				}
+				checkEvents(when)
+				if v != "" || c2 == nil || s2 == nil {
+					// (a second connection that is not established within 30
+					// virtual seconds is C11's subject)
+					return
+				}
+				p.C, p.S = c2, s2
+				if c2.LocalAddr().(*mailbox.Addr).SID != cl || c2.RemoteAddr().(*mailbox.Addr).SID != cr ||
+					s2.LocalAddr().(*mailbox.Addr).SID != sl || s2.RemoteAddr().(*mailbox.Addr).SID != sr {
+					v = "stream ids changed " + when
+					return
+				}
+				refreshed = round
 			}
 		})
 		if bo.Panic != "" && !bo.Deadlock && v == "" {
@@ -327,10 +375,11 @@ func TestC17Streams(t *testing.T) {
 		return v
 	}
 	var rc struct {
-		Seed uint64 `json:"seed"`
+		Seed      uint64 `json:"seed"`
+		Refreshes int    `json:"refreshes"`
 	}
 	if stats.ReplayCase(unit, &rc) {
-		if v := run(rc.Seed); v != "" {
+		if v := run(rc.Seed, rc.Refreshes); v != "" {
 			rec.Violation(v, "streams", rc)
 			t.Fatal(v)
 		}
@@ -341,12 +390,14 @@ func TestC17Streams(t *testing.T) {
 	}
 	rapid.Check(t, func(rt *rapid.T) {
 		seed := rapid.Uint64().Draw(rt, "seed")
-		rec.Case(true, seed, "live_pair_streams")
+		refreshes := rapid.IntRange(0, 3).Draw(rt, "refreshes")
+		v := run(seed, refreshes)
+		rec.Case(true, fmt.Sprintf("%d/%d", seed, refreshes), "live_pair_streams", fmt.Sprintf("connections_checked_%d", refreshed+1))
 		if rec.WantSample() {
-			rec.Sample(map[string]uint64{"seed": seed})
+			rec.Sample(map[string]any{"seed": seed, "refreshes": refreshes})
 		}
-		if v := run(seed); v != "" {
-			rec.Pending(v, "streams", map[string]uint64{"seed": seed})
+		if v != "" {
+			rec.Pending(v, "streams", map[string]any{"seed": seed, "refreshes": refreshes})
 			rt.Fatalf("%s", v)
 		}
 	})
